@@ -87,6 +87,33 @@ func isOnceDo(s ast.Stmt) bool {
 }
 
 // hasChanOp reports whether n contains a channel send or receive outside function literals.
+// hasCall reports whether n contains a call (outside function literals): an operand that may run code of the
+// tree under test, which must not happen while the task is detached from the token.
+func hasCall(n ast.Node) bool {
+	found := false
+	ast.Inspect(n, func(c ast.Node) bool {
+		switch c.(type) {
+		case *ast.FuncLit:
+			return false
+		case *ast.CallExpr:
+			found = true
+		}
+		return !found
+	})
+	return found
+}
+
+func hasFuncLit(n ast.Node) bool {
+	found := false
+	ast.Inspect(n, func(c ast.Node) bool {
+		if _, ok := c.(*ast.FuncLit); ok {
+			found = true
+		}
+		return !found
+	})
+	return found
+}
+
 func hasChanOp(n ast.Node) bool {
 	found := false
 	ast.Inspect(n, func(c ast.Node) bool {
@@ -241,11 +268,31 @@ func Library(dir string) (*Report, error) {
 				// duration (the operation itself runs for real) and queues for the token afterwards.
 				switch x := s.(type) {
 				case *ast.ExprStmt, *ast.SendStmt, *ast.AssignStmt, *ast.DeclStmt:
-					if hasChanOp(s) {
+					snd, isSend := s.(*ast.SendStmt)
+					switch {
+					case !hasChanOp(s):
+					case !hasCall(s) || !Hoist:
+						// no operand of the statement runs code of its own: the whole statement runs detached
 						bracketed = append(bracketed, [2]token.Pos{s.Pos(), s.End()})
 						edits = append(edits, edit{off: off(s.Pos()), text: "zzsimrt.BeginBlocking(); "})
 						edits = append(edits, edit{off: off(s.End()), text: "; zzsimrt.EndBlocking()"})
 						rep.ChanBrackets++
+					case isSend && !hasChanOp(snd.Chan) && !hasChanOp(snd.Value) && !hasFuncLit(s):
+						// ch <- f(): the operands are evaluated with the token (f may lock, build a table, yield);
+						// only the send itself runs detached
+						n := strconv.Itoa(off(s.Pos()))
+						bracketed = append(bracketed, [2]token.Pos{s.Pos(), s.End()})
+						edits = append(edits, edit{off: off(s.Pos()), del: off(s.End()) - off(s.Pos()),
+							text: "zzc" + n + ", zzs" + n + " := " + string(src[off(snd.Chan.Pos()):off(snd.Chan.End())]) + ", " + string(src[off(snd.Value.Pos()):off(snd.Value.End())]) +
+								"; zzsimrt.BeginBlocking(); zzc" + n + " <- zzs" + n + "; zzsimrt.EndBlocking()"})
+						rep.ChanBrackets++
+					case isSend:
+						bracketed = append(bracketed, [2]token.Pos{s.Pos(), s.End()})
+						edits = append(edits, edit{off: off(s.Pos()), text: "zzsimrt.BeginBlocking(); "})
+						edits = append(edits, edit{off: off(s.End()), text: "; zzsimrt.EndBlocking()"})
+						rep.ChanBrackets++
+					default:
+						// x := <-f() and the like: the receives are hoisted by the pass below, operands first
 					}
 				case *ast.SelectStmt:
 					edits = append(edits, edit{off: off(s.Pos()), text: "zzsimrt.BeginBlocking(); "})
@@ -400,7 +447,7 @@ func Library(dir string) (*Report, error) {
 					break
 				}
 			}
-			safe := si >= 0 && !hasChanOp(u.X)
+			safe := si >= 0 && !hasChanOp(u.X) && !hasFuncLit(u.X)
 			if safe {
 				// the operand may name a variable that the statement's own init clause declares: then it cannot move in front of it
 				var init ast.Stmt
@@ -460,8 +507,12 @@ func Library(dir string) (*Report, error) {
 				}
 			}
 			st := stack[si].(ast.Stmt)
+			if es, ok := stack[len(stack)-2].(*ast.ExprStmt); ok && es.X == ast.Expr(u) {
+				repl = "_ = " + v // a statement that is nothing but the receive
+			}
+			// the operand is evaluated first, with the token (it may be a call that locks, builds or yields)
 			edits = append(edits,
-				edit{off: off(st.Pos()), text: "zzsimrt.BeginBlocking(); " + lhs + " := <-" + x + "; zzsimrt.EndBlocking(); "},
+				edit{off: off(st.Pos()), text: "zzc" + v[3:] + " := " + x + "; zzsimrt.BeginBlocking(); " + lhs + " := <-zzc" + v[3:] + "; zzsimrt.EndBlocking(); "},
 				edit{off: off(u.Pos()), text: repl, del: off(u.End()) - off(u.Pos())})
 			rep.ChanBrackets++
 			return true
